@@ -12,7 +12,7 @@ from vf.world import sut
 RULE = (
     "Hypothesis rule-based machine over 2 HeavyHitters sketches (width 1..8, depth 1..3, max_key_len 2..8, NUL-alias key universe), rules "
     "add/update(list|dict)/add_ngram/merge/save_load interleaved with query(i,k,t), k in {1,2,3,10^9}, t in {None,0,1,2..10,2^32-1}, and "
-    "requery (the same arguments again, then a different threshold, then the first again: cache hit and miss paths) and cross_query (X, then another sketch Y, then X again). Directed grid: for phi in {0.01..0.99} (width 64) and default phi = 1/width for width 2..199, every n_added in 1..200 (thorough 600): a key holding exactly floor(phi*n_added) must be in query(). Oracle per query, "
+    "requery (the same arguments again, then a different threshold, then the first again: cache hit and miss paths) and cross_query (X, then another sketch Y, then X again), direct_regen (query, the public generate_candidate_set(t') called directly, the first query again) and saturated_then_huge_threshold (add(key, 2^32-1), then a query with threshold 2^32-1 / 2^32 / 2^40 / inf: a rejected call is not judged, a returned answer must hold counts >= threshold). Directed grid: for phi in {0.01..0.99} (width 64) and default phi = 1/width for width 2..199, every n_added in 1..200 (thorough 600): a key holding exactly floor(phi*n_added) must be in query(). Oracle per query, "
     "evaluated on the answer obtained FIRST, before any helper call touches the sketch: length <= k; keys distinct; counts non-increasing; "
     "each count == hh[key] and >= effective threshold (floor(phi*n_added) for None); counts == first k counts of query(10^9,t); every model "
     "key with hh[key] >= max(threshold,1) is in the unbounded answer; and the answer equals (as count sequence and, for k=inf, as a multiset of pairs) "
@@ -44,12 +44,24 @@ class QueryChecker:
     def __call__(self, touched, step):
         op = step["op"]
         if op == "bad_query":
-            # an out-of-range threshold: whatever the call does (numpy 2 raises OverflowError) is not judged,
-            # but the caller may catch the exception and carry on, and later answers must still be right
+            # an out-of-range threshold: whether the call is rejected (numpy 2 raises OverflowError) is not judged,
+            # but the caller may catch the exception and carry on, and later answers must still be right; an
+            # answer that IS returned must still consist of counts >= threshold (none can reach 2^32 or more)
             try:
-                self.w.sk[step["i"]].query(step["k"], step["t"])
+                got = self.w.sk[step["i"]].query(step["k"], step["t"])
             except Exception:
                 self.nt.add("bad_threshold_rejected")
+                return
+            for key, c in got:
+                if int(c) < step["t"]:
+                    raise Violation(f"sketch {step['i']} query({step['k']},{step['t']}): reports ({key!r},{int(c)}) below the threshold", "below-threshold")
+            return
+        if op == "gen_cs":
+            # the public generate_candidate_set(threshold) called directly, as the repository's own tests do
+            sk = self.w.sk[step["i"]]
+            if step["t"] is not None or none_threshold_ok(sk):
+                sut(sk.generate_candidate_set, step["t"])
+                self.nt.add("direct_generate_candidate_set")
             return
         if op == "query":
             self.check_query(step["i"], step["k"], step["t"])
@@ -153,6 +165,23 @@ def _bad_then_good_query(self, i, k, t, t_ok):
     self.do({"op": "query", "i": i, "k": k, "t": t_ok})
 
 
+@rule(i=machines.SK, k=KS, t1=TS, t2=TS)
+def _direct_regen(self, i, k, t1, t2):
+    """query, then the public generate_candidate_set() with another threshold, then the first query again"""
+    i = i % self.N
+    self.do({"op": "query", "i": i, "k": k, "t": t1})
+    self.do({"op": "gen_cs", "i": i, "t": t2})
+    self.do({"op": "query", "i": i, "k": k, "t": t1})
+
+
+@rule(i=machines.SK, ki=machines.IDX, k=KS, t=st.sampled_from([2**32, 2**32 + 1, 2**40, float("inf"), CEIL]))
+def _saturated_then_huge_threshold(self, i, ki, k, t):
+    """a key saturated at 2^32-1, then a threshold no count can reach"""
+    i = i % self.N
+    self.do({"op": "add", "i": i, "k": self.key(ki), "v": CEIL})
+    self.do({"op": "bad_query" if t > CEIL else "query", "i": i, "k": k, "t": t})
+
+
 @rule(i=machines.SK, k=KS, t=TS, t2=TS)
 def _cross_query(self, i, k, t, t2):
     """query X, then another sketch object Y, then X again with the same arguments (cache-hit path of X)"""
@@ -172,7 +201,7 @@ def _patched_world_apply():
     orig = World.apply
 
     def apply(self, step):
-        if step["op"] in ("query", "bad_query"):
+        if step["op"] in ("query", "bad_query", "gen_cs"):
             return set()
         return orig(self, step)
 
@@ -187,7 +216,7 @@ def _shard(arg):
     holder = {}
     M = machines.make_machine(
         "C13Machine", QueryChecker, rec, holder, CFG=CFG, N=2, VALUES=VALUES, MAXKEY=11, draw_universe=_draw_universe,
-        query=_query, requery=_requery, threshold_walk=_threshold_walk, cross_query=_cross_query, bad_then_good_query=_bad_then_good_query,
+        query=_query, requery=_requery, threshold_walk=_threshold_walk, cross_query=_cross_query, bad_then_good_query=_bad_then_good_query, direct_regen=_direct_regen, saturated_then_huge_threshold=_saturated_then_huge_threshold,
     )
     common.run_machine(M, common.derive_seed(seed, "C13", shard), n_examples, steps, holder, rec, retry=lambda c_: machines.replay_trace(c_, QueryChecker))
     return rec
